@@ -25,6 +25,7 @@ from typing import Tuple
 
 from .consteval import ExtRef
 from .consteval import Folder
+from .consteval import Instance
 from .consteval import NotConst
 from .consteval import RegexConst
 from .consteval import Scope
@@ -33,7 +34,7 @@ from .loader import FuncInfo
 
 
 _PURE_FUNCS: Dict[str, Callable[..., Any]] = {
-    "int": int, "str": str, "len": len, "float": float, "bool": bool, "abs": abs,
+    "int": int, "str": str, "len": len, "float": float, "bool": lambda x=False: bool(x), "abs": abs,
     # iteration helpers: their result is materialised (the explorer iterates over sequences it knows)
     "enumerate": lambda *a: list(enumerate(*a)), "zip": lambda *a: list(zip(*a)), "range": lambda *a: list(range(*a)),
     "list": list, "tuple": tuple, "reversed": lambda a: list(reversed(a)), "min": min, "max": max, "sum": sum, "slice": slice,
@@ -43,6 +44,8 @@ _PLAIN_CLASSES = {
     "str": (str,), "int": (int,), "float": (float,), "bool": (bool,), "list": (list,), "tuple": (tuple,), "dict": (dict,),
     "Sequence": (str, list, tuple), "MutableSequence": (list,), "Mapping": (dict,), "MutableMapping": (dict,),
     "Iterable": (str, list, tuple, dict), "Collection": (str, list, tuple, dict), "Sized": (str, list, tuple, dict),
+    # classes no plain sample value is an instance of
+    "Decimal": (), "NodeList": (), "Pattern": (), "IOBase": (), "bytes": (), "JSONPathMatch": (), "_Undefined": (),
 }
 
 
@@ -80,7 +83,8 @@ def as_text(v: Any) -> Optional[Text]:
 
 
 class _PathRaises(Exception):
-    """The statement being evaluated certainly raises (a lookup of a key that a known dictionary lacks)."""
+    """The statement being evaluated certainly raises (a lookup of a key that a known dictionary lacks); the
+    argument is the name of the exception class."""
 
 
 class AbstractObject:
@@ -120,6 +124,7 @@ class Explorer:
         self._loop_exits: List[List[Dict[str, Any]]] = []
         self._try_depth = 0
         self._dropped = 0  # paths that ended in a certain exception
+        self.raised: List[str] = []  # ... and the classes of those exceptions
         self.enter_with = enter_with
         self.split_conditionals = False  # fork a path at an undecided conditional expression inside a value
         self.outcomes: List[Outcome] = []
@@ -151,7 +156,8 @@ class Explorer:
                     items_.append(self.value(x, env))
             return tuple(items_) if isinstance(e, ast.Tuple) else items_
         if isinstance(e, ast.Attribute):
-            base = self.value(e.value, env) if isinstance(e.value, (ast.Name, ast.Attribute)) else None
+            base = self.value(e.value, env) if isinstance(e.value, (ast.Name, ast.Attribute)) or (
+                self.enter_with and isinstance(e.value, (ast.Subscript, ast.Call))) else None
             if isinstance(base, AbstractObject):
                 return base.peval_getattr(e.attr)
             if isinstance(base, slice) and e.attr in ("start", "stop", "step"):
@@ -260,12 +266,19 @@ class Explorer:
                     return None
                 if r is not None:
                     return r
+            if (isinstance(e.func, ast.Name) and e.func.id == "bool" and "bool" not in env and len(args) == 1 and not e.keywords
+                    and type(args[0]).__name__ == "Match" and type(args[0]).__module__ == "re"):
+                return True
             if (isinstance(e.func, ast.Name) and e.func.id in _PURE_FUNCS and e.func.id not in env and not e.keywords and args
                     and all(isinstance(a, _PLAIN) and not isinstance(a, Text) for a in args)
                     and not any(isinstance(a_, ast.Starred) for a_ in e.args)):
                 # a pure builtin on values the path knows (the arguments may come from model objects)
                 try:
                     return _PURE_FUNCS[e.func.id](*args)
+                except (TypeError, ValueError) as err:
+                    if self.enter_with:
+                        raise _PathRaises(type(err).__name__) from err  # certain, on fully known arguments
+                    return UNKNOWN
                 except Exception:  # noqa: BLE001
                     return UNKNOWN
             if (isinstance(e.func, ast.Name) and e.func.id in ("range", "zip") and e.func.id not in env and not e.keywords
@@ -286,6 +299,17 @@ class Explorer:
                         return _PURE_FUNCS[e.func.id](*flat)
                     except Exception:  # noqa: BLE001
                         return UNKNOWN
+            if (self.enter_with and isinstance(e.func, ast.Attribute) and isinstance(e.func.value, ast.Name) and e.func.value.id == "re" and "re" not in env
+                    and e.func.attr in ("fullmatch", "match", "search") and len(args) == 2 and not e.keywords  # noqa: PLR2004
+                    and all(isinstance(a, _PLAIN) and not isinstance(a, Text) for a in args)):
+                import re as _re2
+
+                try:
+                    return getattr(_re2, e.func.attr)(*args)
+                except _re2.error as err:
+                    raise _PathRaises("re.error") from err
+                except (TypeError, ValueError, OverflowError) as err:
+                    raise _PathRaises(type(err).__name__) from err
             if isinstance(e.func, ast.Name) and e.func.id == "getitem" and e.func.id not in env and len(args) == 2 and not e.keywords:  # noqa: PLR2004
                 # operator.getitem on a container and a key the path knows; a missing key / index ends the path
                 try:
@@ -429,6 +453,16 @@ class Explorer:
                 names = class_names(t.args[1])
                 if names is not None:
                     return subj.peval_isinstance(names)
+            elif self.enter_with and isinstance(subj, Instance):
+                # an instance of a class of the package (a sentinel like UNDEFINED)
+                from .kinds import class_names
+
+                names = class_names(t.args[1])
+                if names is not None:
+                    try:
+                        return any(n_ == subj.cls.name or self.folder.repo.is_subclass(subj.cls.qualname, n_) for n_ in names)
+                    except Exception:  # noqa: BLE001
+                        return None
             elif isinstance(subj, _PLAIN) and not isinstance(subj, Text) and (subj is not None or self.enter_with):
                 # (None only for explorers that run whole bodies on concrete samples: elsewhere None is also
                 # what an unset model field reads as)
@@ -473,6 +507,16 @@ class Explorer:
                     "int", "str", "float", "len", "bool", "list", "tuple", "dict", "set", "frozenset") and lhs.func.id not in env:
                 self.value(lhs, env)  # the call is made (hooks see it); its result is never None
                 return isinstance(t.ops[0], ast.IsNot)
+        if self.enter_with and isinstance(t, ast.Compare) and len(t.ops) == 1 and isinstance(t.ops[0], (ast.Is, ast.IsNot)):
+            a2, b2 = self.value(t.left, env), self.value(t.comparators[0], env)
+            if a2 is not UNKNOWN and b2 is not UNKNOWN and not isinstance(a2, Text) and not isinstance(b2, Text):
+                plain_a = isinstance(a2, _PLAIN) or a2 is None
+                plain_b = isinstance(b2, _PLAIN) or b2 is None
+                if plain_a != plain_b:
+                    return isinstance(t.ops[0], ast.IsNot)  # a JSON sample value is never a sentinel object
+                if not plain_a and not plain_b and type(a2) is type(b2):
+                    same = a2 is b2 or a2 == b2
+                    return same == isinstance(t.ops[0], ast.Is)
         if isinstance(t, ast.Compare) and len(t.ops) == 1:
             a, b = self.value(t.left, env), self.value(t.comparators[0], env)
             if a is UNKNOWN or b is UNKNOWN or isinstance(a, Text) or isinstance(b, Text):
@@ -545,7 +589,8 @@ class Explorer:
             for e in envs:
                 try:
                     nxt.extend(self.stmt(s, e))
-                except _PathRaises:
+                except _PathRaises as pr:
+                    self.raised.append(str(pr.args[0]) if pr.args else "?")
                     # this path ends here with an exception: inside a `try` body the handlers take over (they
                     # are explored anyway), elsewhere it is a way out of the function
                     self._dropped += 1
